@@ -61,12 +61,27 @@ package types
 // always allocates and never writes into the shared backing array. Trusted (initialiser bodies are not verified).
 //@ axiom evm_key_prefixes: len(KeyPrefixBlockHash) == 1 && cap(KeyPrefixBlockHash) == 1 && len(KeyPrefixTransientTxReceipt) == 1 && cap(KeyPrefixTransientTxReceipt) == 1 && len(KeyPrefixTransientTxGas) == 1 && cap(KeyPrefixTransientTxGas) == 1 && len(KeyPrefixTransientTxLogCount) == 1 && cap(KeyPrefixTransientTxLogCount) == 1
 
-//@ ghost func trReceiptKeyB(i int) bytes
-//@ func TxReceiptTransientKey(txIdx uint64) []byte
-//@   assumed
+// (helper tr) the transient-store keys hold the values their initialisers give them (T4, like evm_key_prefixes: package-level
+// variables are not modified after init; the initialisers are the one-byte literals above in key.go).
+//@ axiom evm_transient_key_values: len(KeyTransientTxCount) == 1 && KeyTransientTxCount[0] == 5 && len(KeyPrefixTransientTxGas) == 1 && KeyPrefixTransientTxGas[0] == 6 && len(KeyPrefixTransientTxLogCount) == 1 && KeyPrefixTransientTxLogCount[0] == 7 && len(KeyPrefixTransientTxReceipt) == 1 && KeyPrefixTransientTxReceipt[0] == 8 && len(KeyTransientFlagIncreasedSenderNonce) == 1 && KeyTransientFlagIncreasedSenderNonce[0] == 9 && len(KeyTransientFlagNoBaseFee) == 1 && KeyTransientFlagNoBaseFee[0] == 10 && len(KeyTransientSenderPaidFee) == 1 && KeyTransientSenderPaidFee[0] == 11
+
+// the indexed keys of the transient store: prefix byte, then the big-endian index (8 bytes)
+//@ func TxGasTransientKey(txIdx uint64) []byte
+//@   deterministic[C01.no_node_local_source]
 //@   modifies nothing
-//@   ensures len(result) == 9 && bytes(result) == trReceiptKeyB(txIdx) && fresh(base(result))
-//@   panics never
+//@   ensures[C05.tr_gas_key_layout,C13.tr_gas_key_layout] len(result) == 9 && bytes(result) == bcat(b1(6), be64(txIdx)) && fresh(base(result))
+//@   panics[C13.tr_gas_key_never_panics] never
+//@ func TxLogCountTransientKey(txIdx uint64) []byte
+//@   deterministic[C01.no_node_local_source]
+//@   modifies nothing
+//@   ensures[C13.tr_logs_key_layout] len(result) == 9 && bytes(result) == bcat(b1(7), be64(txIdx)) && fresh(base(result))
+//@   panics[C13.tr_logs_key_never_panics] never
+//@ ghost func trReceiptKeyB(i int) bytes = bcat(b1(8), be64(i))
+//@ func TxReceiptTransientKey(txIdx uint64) []byte
+//@   deterministic[C01.no_node_local_source]
+//@   modifies nothing
+//@   ensures[C13.tr_receipt_key_layout,C20.tr_receipt_key_layout] len(result) == 9 && bytes(result) == trReceiptKeyB(txIdx) && fresh(base(result))
+//@   panics[C13.tr_receipt_key_never_panics,C20.tr_receipt_key_never_panics] never
 //@ func BlockHashKey(height uint64) []byte
 //@   deterministic[C01.no_node_local_source]
 //@   modifies nothing
